@@ -32,21 +32,14 @@ Proof. vm_compute. reflexivity. Qed.
    (Gen/C07.v go_QuestionMatches, go_progressingReferral, go_validReferral) and proved equal to the model in
    Proofs_gen.v (gen_QuestionMatches, gen_progressingReferral, gen_validReferral). *)
 
-Lemma gen_extract_info_shape : src_extract_info = map s2b [
-  "case *dns.SOA:";
-  "info.hasSOA = true";
-  "case *dns.NS:";
-  "if info.nsRecord == nil {";
+(* session 5, wave 9: the LOOP of extractDelegationInfo is translated (Proofs_info.v: gen_extractDelegationInfo_loop);
+   only the statements of the branch the translation cannot take - the first NS record anchors the set, `info.nsRecord
+   == nil` on a pointer field - stay pinned: Model.info_step's `None =>` case restates them *)
+Lemma gen_extract_anchor_shape : src_extract_anchor = map s2b [
   "info.nsRecord = v";
   "info.nsTTL = h.Ttl";
   "info.hosts[strings.ToLower(v.Ns)] = struct{}{}";
-  "continue";
-  "if !strings.EqualFold(h.Name, info.nsRecord.Header().Name) || h.Class != info.nsRecord.Header().Class {";
-  "info.incoherent = true";
-  "continue";
-  "if h.Ttl < info.nsTTL {";
-  "info.nsTTL = h.Ttl";
-  "info.hosts[strings.ToLower(v.Ns)] = struct{}{}" ].
+  "continue" ].
 Proof. vm_compute. reflexivity. Qed.
 
 (* checkGlueRR: the same bailiwick test, host test and address filter in the AAAA and the A pass *)
